@@ -64,7 +64,7 @@ func wktGen(r *rand.Rand, n int, tier string, emit func(Case)) {
 		emit(Case{"kind": "zero", "which": z})
 	}
 	for i := 0; i < n; i++ {
-		tg := &treeGen{r: r, finite: true, simple: i%4 == 3}
+		tg := &treeGen{r: r, finite: true, simple: i%4 == 3, short: i%4 == 1}
 		kind := ""
 		if i < 28 {
 			kind = typeNames[i%7]
